@@ -33,6 +33,8 @@ def run(ctx):
             {"cfg": "Ctxt_quick3.cfg", "workers": 4, "actions": ACTIONS + DISCARD},
             # instances constructed during the program by either thread, then used on both
             {"cfg": "Ctxt_quick4.cfg", "workers": 4, "actions": ["Make", "Open", "Enter", "Exit", "With"]},
+            # the wrapper TraceparentCtxt<ThreadLocalCtxt> as an instance; EMPTY property sets
+            {"cfg": "Ctxt_quick5.cfg", "workers": 4, "actions": ACTIONS + DISCARD},
         ]
     else:
         configs = [
@@ -44,6 +46,7 @@ def run(ctx):
             # transitions, three made instances with a task and panics 3.1 M - both hold, measured once)
             {"cfg": "Ctxt_quick3.cfg", "workers": 6, "actions": ACTIONS + DISCARD},
             {"cfg": "Ctxt_quick4.cfg", "workers": 6, "actions": ["Make", "Open", "Enter", "Exit", "With"]},
+            {"cfg": "Ctxt_quick5.cfg", "workers": 6, "actions": ACTIONS + DISCARD},
             {"cfg": "Ctxt_thorough_sim.cfg", "workers": 4, "simulate": (20000, 14)},
         ]
     span_common.run_configs(ctx, "MCCtxt", "c03_ctxt", configs, ACTIONS, "C03",
@@ -53,6 +56,8 @@ def run(ctx):
         "a disabled frame / Frame::current shows what was ambient where it was created (snapshot), as C04's hand-off clause requires",
         "ThreadLocalCtxt::shared() instances alias one storage by design; 'other context instances' means instances with distinct storage",
         "contexts that store nothing (emit::Empty as a Ctxt, Option::None, also behind dyn ErasedCtxt with inline and boxed frames) show nothing whatever is done through them (instance kinds empty / none)",
+        "instance kind `tp` is emit_traceparent::TraceparentCtxt<ThreadLocalCtxt> (value, and behind dyn ErasedCtxt with inline / boxed frames): a wrapper must forward every frame operation; no span ids are pushed in C03 programs, so its own traceparent slot stays out of play",
+        "property sets may be EMPTY at run time (an empty slice, or emit::Empty itself): a root frame of it hides everything (Frame::root(ctxt, Empty) detaches from the ambient context), a pushed one changes nothing; both must restore on exit",
         "instances of kind `made` are constructed during the program by a model thread (ThreadLocalCtxt::new() / default() in rotation; every model thread is a fresh OS thread per program); the others exist before the program (made by the harness's driver thread)",
         "harness: frames and tasks are handed between OS threads through a mutex-protected table; std mpsc channels order the steps",
         "panics are caught below everything the thread has entered (one catch level per thread)",
